@@ -381,13 +381,30 @@ ModelPropsAligned(pre, m) ==
   /\ AlignedFull(m.pC, m.gC, Len(pre.cells))
 
 (* ------------------------------ other calls ---------------------------- *)
-IsEnableBU(c) == c.op \in {"enable_vbu", "enable_ebu", "enable_fbu"}
+IsEnableBU(c) == c.op \in {"enable_vbu", "enable_ebu", "enable_fbu", "enable_bu"}
 EnableRel(pre, c, post) ==
   /\ SameCore(pre, post)
-  /\ post.vbu = (IF c.op = "enable_vbu" THEN c.f ELSE pre.vbu)
-  /\ post.ebu = (IF c.op = "enable_ebu" THEN c.f ELSE pre.ebu)
-  /\ post.fbu = (IF c.op = "enable_fbu" THEN c.f ELSE pre.fbu)
+  /\ post.vbu = (IF c.op \in {"enable_vbu", "enable_bu"} THEN c.f ELSE pre.vbu)
+  /\ post.ebu = (IF c.op \in {"enable_ebu", "enable_bu"} THEN c.f ELSE pre.ebu)
+  /\ post.fbu = (IF c.op \in {"enable_fbu", "enable_bu"} THEN c.f ELSE pre.fbu)
   /\ post.deferred = pre.deferred /\ post.fast = pre.fast
+
+(* reorder_incident_halffaces(e), called by the user: nothing but the two   *)
+(* rows of that edge may change, and those only by a permutation            *)
+RowPerm(a, b) == Len(a) = Len(b) /\ \A x \in Rng(a) \cup Rng(b) : Count(a, x) = Count(b, x)
+ReorderRel(pre, c, post) ==
+  /\ SameCore(pre, post) /\ SameModes(pre, post)
+  /\ post.out = pre.out /\ post.inc = pre.inc
+  /\ Len(post.hehf) = Len(pre.hehf)
+  /\ \A i \in 1 .. Len(pre.hehf) :
+        IF i - 1 \in {2 * c.a, 2 * c.a + 1} THEN RowPerm(post.hehf[i], pre.hehf[i])
+        ELSE post.hehf[i] = pre.hehf[i]
+
+(* reserve_*: capacity only, nothing observable changes                     *)
+ReserveRel(pre, post) ==
+  /\ SameCore(pre, post) /\ SameModes(pre, post)
+  /\ post.out = pre.out /\ post.inc = pre.inc /\ post.hehf = pre.hehf
+  /\ \A e \in Hs(pre.edges) : At(post.edges, e) = At(pre.edges, e)
 
 ClearRel(pre, post) ==
   /\ post.nv = 0 /\ post.edges = <<>> /\ post.faces = <<>> /\ post.cells = <<>>
@@ -422,6 +439,8 @@ StepRel(pre, c, post, ret, g) ==
     [] c.op = "enable_deferred" -> SameCore(pre, post) /\ post.deferred = c.f /\ post.fast = pre.fast
     [] c.op = "enable_fast" -> SameCore(pre, post) /\ post.fast = c.f /\ post.deferred = pre.deferred
     [] c.op = "clear" -> ClearRel(pre, post)
+    [] c.op = "reorder" -> ReorderRel(pre, c, post)
+    [] c.op = "reserve" -> ReserveRel(pre, post)
     [] c.op \in {"set_edge", "set_face", "set_cell"} -> SetRel(pre, c, post)
     [] OTHER -> TRUE
 
